@@ -14,9 +14,9 @@ DRIVER_PARTS = ["xt_util.ml", "drv_C12.ml"]
 LEVEL = "proof"
 CASE_TIMEOUT = 0.2
 RULE = ("case = a history of control settings (altscreen, cursorvis, cursorblink, mouse, cursorshape, keypad_app; any "
-        "order, repeated, redundant), control reads, set-pen / change-pen, pause / resume cycles, ending in teardown "
+        "order, repeated, redundant; boolean controls with truthy values 2, 4, 256, -1 as well as 0/1), control reads, set-pen / change-pen, pause / resume cycles, ending in teardown "
         "and/or destruction -- directly on an xterm TickitTerm (T) or through a toplevel Tickit instance whose first tick "
-        "runs setupterm (U).  The bytes of every operation are compared with the model's and run through the extracted "
+        "runs setupterm (U), optionally with the application holding its own reference on the root window or the terminal across the final tickit_unref.  The bytes of every operation are compared with the model's and run through the extracted "
         "VT: after pause / teardown / destruction the modes of the property's list and the rendition are the initial ones, "
         "after resume (and after every setting while running) they are the logical ones, the rendition is the logical "
         "pen, and every read returns the last value set.  Non-trivial = at least one operation wrote bytes; distinct = "
@@ -24,7 +24,7 @@ RULE = ("case = a history of control settings (altscreen, cursorvis, cursorblink
 ASSUMPTIONS = [
     "the terminal starts in its power-on mode state (main screen, cursor visible, no mouse reporting, numeric keypad, "
     "default rendition); the cursor's initial blink state and shape are whatever the terminal reports",
-    "control values in range (booleans 0/1, mouse 0..3, cursor shape 1..3); pens as for C10",
+    "control values in range (boolean controls: any int, read as C truthiness; mouse 0..3; cursor shape 1..3); pens as for C10",
     "nothing is requested between teardown and destruction; settings made while paused are checked after the next resume",
     "the property's list of modes: alternate screen, cursor visibility, mouse reporting (+SGR encoding), application keypad, "
     "rendition; cursor blink and shape are not restored by the library and are compared only after being set; DECLRMM "
@@ -41,10 +41,12 @@ FINDING_KEYPAD = "C12-keypad-app-not-recorded"
 VERIF = os.path.dirname(os.path.dirname(os.path.dirname(os.path.abspath(__file__))))
 
 PENS = ["-", "b=1", "fg=3", "fg=3,bg=200,u=1", "rv=1", "fg=12#aabbcc,i=1", "b=0", "fg=-1", "u=2,strike=1", "af=3,blink=1,sizepos=2"]
-SETS = {"A": [0, 1], "V": [0, 1], "B": [0, 1], "M": [0, 1, 2, 3], "H": [1, 2, 3], "K": [0, 1]}
+# boolean controls take any int, read as C truthiness: flag-style values with a clear low bit, large, negative
+TRUTHY = [0, 1, 2, 4, 256, -1]
+SETS = {"A": TRUTHY, "V": TRUTHY, "B": TRUTHY, "M": [0, 1, 2, 3], "H": [1, 2, 3], "K": TRUTHY}
 
 
-def gen(tier, seed, info):
+def _gen(tier, seed, info):
     rnd = random.Random(seed * 7919 + 12)
     quick = tier == "quick"
     counts = {}
@@ -61,7 +63,7 @@ def gen(tier, seed, info):
                     yield emit("pairs", "%s %s:%d g:%s %s:%d g:%s Z R g:%s T" % (h, c, v, c, c, w, c, c))
                     yield emit("pairs", "%s %s:%d %s:%d D" % (h, c, v, c, w))
     # 2. all histories of up to 3 settings over (A, V, M, K) x pause/resume position, ending in D or T
-    basic = ["A:1", "A:0", "V:0", "V:1", "M:1", "M:2", "M:0", "K:1", "K:0"]
+    basic = ["A:1", "A:0", "A:2", "V:0", "V:1", "V:-1", "M:1", "M:2", "M:0", "K:1", "K:0"]
     for a in basic:
         for b in basic:
             for end in ("D", "T", "T D", "Z D", "Z R D", "Z T"):
@@ -70,6 +72,11 @@ def gen(tier, seed, info):
                 continue
             for c in basic:
                 yield emit("short_histories", "T 2 2 0 0 %s Z R %s Z %s R D" % (a, b, c))
+    # 2b. modes / pen switched on while paused, then torn down or destroyed without a resume
+    for a in ("A:1", "V:0", "M:2", "M:3", "s:b=1", "c:fg=3,u=1", "A:4", "V:0 M:1 s:rv=1"):
+        for pre in ("", "A:1", "M:1 V:0", "s:fg=2"):
+            for end in ("D", "T", "T D", "Z D", "Z T"):
+                yield emit("paused_then_stop", ("T 2 2 0 0 %s Z %s %s" % (pre, a, end)).replace("  ", " "))
     # 3. pen across pause / resume
     for h in heads[:3]:
         for p in PENS:
@@ -83,6 +90,14 @@ def gen(tier, seed, info):
             yield emit("toplevel", "U %d %d %d g:A g:V g:M g:K Z R D" % (alt, colon, rgb))
             for p in PENS[:6]:
                 yield emit("toplevel", "U %d %d %d s:%s Z R c:%s M:0 V:1 D" % (alt, colon, rgb, p, p))
+    # 4b. the application keeps its own references (root window w, terminal h) across the final tickit_unref
+    #     of the instance and releases them afterwards (x) or never: the terminal must be restored at D
+    for alt in (0, 1):
+        for hold in ("w", "h", "w h", "h h", "h w"):
+            for mid in ("", "s:fg=2,b=1", "M:3 V:1", "Z", "Z R", "A:0", "s:rv=1 Z A:1"):
+                for tail in ("D", "D x", "D g:A g:M x"):
+                    yield emit("held_refs", ("U %d 0 0 %s %s %s" % (alt, hold, mid, tail)).replace("  ", " "))
+                yield emit("held_refs", ("U %d 1 1 %s %s x D" % (alt, mid, hold)).replace("  ", " "))
     info["exhaustive"] = True
     info["exhaustive_scope"] = ("every control x every ordered pair of its values with read-back, pause/resume and teardown, "
                                 "for five probed start states; all 2-setting histories over altscreen/cursorvis/mouse/keypad "
@@ -111,6 +126,12 @@ def gen(tier, seed, info):
         ops.append(rnd.choice(["D", "D", "T", "T D"]))
         if top:
             ops = [o for o in ops if o != "T" and o != "T D"] + (["D"] if ops[-1] != "D" else [])
+            if rnd.random() < 0.4:
+                ops.insert(rnd.randrange(len(ops)), rnd.choice(["w", "h"]))
+                if rnd.random() < 0.3:
+                    ops.insert(rnd.randrange(len(ops)), rnd.choice(["w", "h"]))
+                if rnd.random() < 0.6:
+                    ops.append("x")
             yield emit("random_U", "U %d %d %d %s" % (rnd.randint(0, 1), rnd.randint(0, 1), rnd.randint(0, 1), " ".join(ops)))
         else:
             h = rnd.choice(heads + ["T %d %d %d %d" % (rnd.choice([-1, 0, 1, 2, 3, 4, 5, 6]), rnd.randint(0, 2), rnd.randint(0, 1), rnd.randint(0, 1))])
@@ -173,3 +194,11 @@ def shrink(case):
     head, ops = t[:n], t[n:]
     for i in range(len(ops)):
         yield " ".join(head + ops[:i] + ops[i + 1:])
+
+
+def gen(tier, seed, info):
+    """cases outside the trigger class of the recorded finding first (stable), so that the first failing
+    input reported for a broken tree is one that has nothing to do with the finding whenever such a case exists"""
+    cases = list(_gen(tier, seed, info))
+    cases.sort(key=sets_keypad_on)
+    return iter(cases)
